@@ -423,6 +423,9 @@ async fn drive(conn: &mut Conn, sc: &Script<'_>, victim: &mut Option<Victim>) ->
     }
     if let Some(a) = answer {
         let _ = conn.a_in_tx.send(a).await;
+        // a remote that does not wait for the verdict: its room list request is in flight while the proof
+        // is being checked (whatever it is served is collected with the later probe)
+        let _ = conn.q_in_tx.try_send(QueryProtocol { id: 8000, query: Query::RoomList });
     }
     // outcome: the readiness event (trusted), or the connection's channels closing (given up)
     let guard = tokio::time::sleep(Duration::from_secs(25));
@@ -465,7 +468,7 @@ async fn probe(conn: &mut Conn, ob: &mut Observed) {
                 if a.id == 9001 {
                     break;
                 }
-                if a.id == 9000 && a.success && !a.complete {
+                if (a.id == 9000 || a.id == 8000) && a.success && !a.complete {
                     if let Ok(list) = bincode::deserialize::<VecDeque<Uid>>(&a.serialized) {
                         ob.rooms_served.extend(list);
                     }
